@@ -19,12 +19,15 @@ A template is ordinary text (Rust) with directive blocks:
   //@@ slice file=<rel> fn=<name> [impl=..] name=<label>
   //@@ from: <anchor tokens>          slice starts at the first token of the anchor
   //@@ through: <anchor tokens>       slice ends at the last token of the (first after `from`) anchor
+  //@@ through_stmt: <anchor tokens>  ... or at the `;` ending the statement that starts with the anchor
   //@@ through_close                  ... or at the closer matching the last token of `from`
   //@@ inner                          with through_close: take only what is inside the delimiters
   //@@ header                         lines emitted before the slice (synthesized fn signature + contract + `{`)
   //@@ epilogue                       lines emitted after the slice (result expression + `}`)
   //@@ after:/before:/rewrite:/strip: as above
   //@@ end
+
+  //@@ default_after_all: <tokens> ==> <text>   (outside blocks: an after_all rule for every later block)
 
   //@@ literal file=<rel> fn=<name> [impl=..] macro=<format|...> nth=<k> name=<IDENT>
         emits `pub const <IDENT>: &str = <the string literal>;`
@@ -102,7 +105,10 @@ def _apply_common(piece, blk):
     for anchor, spec in blk.get('closure_specs', []):
         # anchor ends with the closing `|` of a closure's parameter list; the closure is the last
         # argument of a call: its body extends to the `)` matching the `(` that precedes the closure
-        hits, n = piece.find(anchor, what='closure_spec')
+        hits, n = piece.find(anchor, unique=False, what='closure_spec')
+        if len(hits) != 1:
+            piece.counts['closure_spec_skipped'] = piece.counts.get('closure_spec_skipped', 0) + 1
+            continue
         s = piece.src.s
         bar2 = hits[0] + n - 1
         assert s[bar2].text in ('|', '||'), 'closure_spec anchor must end with |'
@@ -216,6 +222,21 @@ def _gen_slice(repo, blk, gen):
         s1 = rtok.match_close(src.s, opener)
         if blk.get('inner'):
             s0, s1 = opener + 1, s1 - 1
+    elif blk.get('through_stmt') is not None:
+        # the slice ends at the `;` closing the statement that starts with the anchor (first after `from`)
+        hits2, n2 = outer.find(blk['through_stmt'] or blk['from'], lo=s0, unique=False, what='through_stmt')
+        if not hits2:
+            raise LostAnchor(f'{a["file"]}:{a["name"]}: through_stmt `{blk["through_stmt"]}` not found after from')
+        k = hits2[0]
+        depth = 0
+        while True:
+            t = src.s[k].text
+            if t in rtok.OPEN: depth += 1
+            elif t in rtok.CLOSE: depth -= 1
+            elif t == ';' and depth == 0: break
+            k += 1
+            if k > j: raise LostAnchor(f'{a["name"]}: statement end not found')
+        s1 = k
     else:
         hits2, n2 = outer.find(blk['through'], lo=s0, unique=False, what='through')
         if not hits2:
@@ -270,6 +291,7 @@ def generate(repo, template_text, variables=None):
     blk = None
     section = None
     variables = variables or {}
+    defaults = []
 
     def subst(ln):
         for k, v in variables.items():
@@ -281,12 +303,15 @@ def generate(repo, template_text, variables=None):
         m = DIRECTIVE.match(ln)
         if blk is None:
             if m and m.group(1) in ('item', 'slice', 'literal'):
-                blk = {'type': m.group(1), 'args': _kv(m.group(2)), 'rewrites': [], 'anchored': [],
+                blk = {'type': m.group(1), 'args': _kv(m.group(2)), 'rewrites': [], 'anchored': [], 'after_all': list(defaults),
                        '__vacuity__': bool(variables.get('__vacuity__'))}
                 section = None
                 if blk['type'] == 'literal':
                     _gen_literal(repo, blk, gen)
                     blk = None
+            elif m and m.group(1) == 'default_after_all':
+                frm, to = m.group(2).split('==>')
+                defaults.append((frm.strip(), to.strip()))
             elif m:
                 raise TemplateError(f'line {i+1}: directive {m.group(1)} outside a block')
             else:
@@ -317,7 +342,7 @@ def generate(repo, template_text, variables=None):
             elif d == 'after_all':
                 frm, to = rest.split('==>')
                 blk.setdefault('after_all', []).append((frm.strip(), to.strip()))
-            elif d in ('strip', 'keep_attrs', 'from', 'through'):
+            elif d in ('strip', 'keep_attrs', 'from', 'through', 'through_stmt'):
                 blk[d] = rest
             elif d in ('through_close', 'inner', 'make_pub'):
                 blk[d] = True
